@@ -665,7 +665,7 @@ def f_model_init(ids, rng, full=False, after=True):
 
 # ------------------------------------------------------------------------- lifecycle (C13)
 
-def f_lifecycle(ids, rng, n_per_model=3, length=12, models=None, ifaces=None):
+def f_lifecycle(ids, rng, n_per_model=3, length=12, models=None, ifaces=None, fault_rate=0.0):
     out = []
     for name in (models or MODELS.keys()):
         W, H, col, ifs = MODELS[name]
@@ -676,10 +676,15 @@ def f_lifecycle(ids, rng, n_per_model=3, length=12, models=None, ifaces=None):
             c = cfg(name, w, h, rng.randrange(0, W - w + 1), rng.randrange(0, H - h + 1), rng.randrange(4), rng.random() < 0.5,
                     iface=iface, buf=rng.choice([3, 16, 64]), rst=rng.random() < 0.5)
             calls = [INIT]
+            faults = []
             for _ in range(rng.randrange(2, length + 1)):
                 k = rng.choice(["sleep", "sleep", "wake", "wake", "draw", "orient", "scroll", "tear", "clear"])
                 if k in ("sleep", "wake"):
                     calls.append({"name": k})
+                    if rng.random() < fault_rate:
+                        # fail one of the (up to 4) low-level operations of this sleep/wake; if the call has fewer
+                        # operations the fault simply does not fire
+                        faults.append({"call": len(calls), "k": rng.randrange(1, 5), "effect": False})
                 elif k == "draw":
                     calls.append({"name": "set_pixel", "x": 0, "y": 0, "c": rng.randrange(65536)})
                 elif k == "orient":
@@ -691,7 +696,10 @@ def f_lifecycle(ids, rng, n_per_model=3, length=12, models=None, ifaces=None):
                     calls.append({"name": "tearing", "mode": rng.choice(["off", "v", "hv"])})
                 else:
                     calls.append({"name": "clear", "c": rng.randrange(65536)})
-            out.append(scn(ids, c, calls, tag="lifecycle"))
+            sc_ = scn(ids, c, calls, tag="lifecycle")
+            if faults:
+                sc_["faults"] = faults
+            out.append(sc_)
     return out
 
 
